@@ -84,7 +84,10 @@ def correspond_c20(tier, impl_only=False):
     cli_cases = [c for c in cases if c.get("profile") == "cli"]
     rej = [c for c in cli_cases if runs[0].get(c["id"], {}).get("facts", {}).get("outcome") == "error"]
     acc = [c for c in cli_cases if runs[0].get(c["id"], {}).get("facts", {}).get("outcome") == "ok"]
-    chosen = rej[:ncli // 2] + acc[:ncli - min(len(rej), ncli // 2)]
+    must = [c for c in cli_cases if c.get("must_cli")]
+    rej = [c for c in rej if not c.get("must_cli")]
+    acc = [c for c in acc if not c.get("must_cli")]
+    chosen = must + rej[:ncli // 2] + acc[:ncli - min(len(rej), ncli // 2)]
     for c in chosen:
         a = runs[0].get(c["id"], {})
         src = a.get("source")
